@@ -92,7 +92,7 @@ fn entry_inner(target: &str, data: &[u8]) -> Vec<Failure> {
             // one token per byte
             let n_keys = 2 + (data.first().copied().unwrap_or(0) as usize % 4);
             let alpha = crate::fq::alphabet(n_keys, true);
-            let toks: Vec<crate::fq::Tok> = data.iter().skip(1).take(120).map(|b| if b & 0xC0 == 0xC0 { crate::fq::Tok::Migrate } else if b & 0x80 != 0 { crate::fq::Tok::Recv } else { alpha[*b as usize % alpha.len()] }).collect();
+            let toks: Vec<crate::fq::Tok> = data.iter().skip(1).take(120).map(|b| if b & 0xE0 == 0xE0 { crate::fq::Tok::Replace((*b & 0x1f) % n_keys as u8) } else if b & 0xC0 == 0xC0 { crate::fq::Tok::Migrate } else if b & 0x80 != 0 { crate::fq::Tok::Recv } else { alpha[*b as usize % alpha.len()] }).collect();
             let r = crate::fq::run_schedule(&toks, n_keys, true);
             if r.stats.invalid_at.is_some() {
                 return vec![];
